@@ -670,6 +670,10 @@ def _len(ex, fn, args, kw, node):
             ex.used_assumptions.add('A-CARD: len(map) is an uninterpreted cardinality (only n==0 <=> empty)')
             return VInt(n)
         if isinstance(c, ObjCell):
+            if '__items__' in c.fields:
+                items = ex.res(c.fields['__items__'])
+                if isinstance(items, VTuple):
+                    return VInt(len(items.items))
             info = ex.find_class(c.cls)
             if info and info.find_method('__len__'):
                 return ex.call_function(info.find_method('__len__'), [v], {}, node)
